@@ -78,4 +78,12 @@ CHECKS = {
         note="Trusted: Lean kernel; extractor (syn); hash injectivity; one representative edit per edit class.",
         technique="Lean 4 invariant proof + extracted-table obligation (decide) + process-level differential histories",
     ),
+    "C16": dict(
+        text="Proof that every name the tool can write or remove in the output directory (generator file names, dependency graphs, cache record, write probe, "
+             "and everything the cleanup predicate accepts - for all file names) is one of the reserved names of the statement; the name tables and the cleanup predicate are "
+             "extracted from the source on every run, so widening a pattern breaks the theorem; tied to the real binary and build path by whole-sandbox snapshots around every action.",
+        design_ref="DESIGN.md section 7.C16",
+        note="Trusted: Lean kernel; extractor (syn); 'all operations are relative to the output directory' is by construction of the model and validated by snapshots.",
+        technique="Lean 4 theorems over extracted tables (decide + lemma lifting to all names) + sandbox snapshot differential runs",
+    ),
 }
